@@ -11,7 +11,4 @@ for f in translator/regen.d/*.sh; do
   [ -f "$f" ] || continue
   ( . "./$f" ) || rc=$?
 done
-# coq/Streams/Gen_Streams.v  stream / seed-updater method bodies for C12/C13 (idempotent: a snippet
-# translator/regen.d/*-streams.sh doing the same would only find the file unchanged)
-env PYTHONDONTWRITEBYTECODE=1 timeout 120 "$PY" translator/py2gallina_streams.py || rc=$?
 exit $rc
